@@ -27,8 +27,8 @@ ASSUME TLCSet(7, ndJsonDeserialize(IOEnv.TRACE))
 Cases == TLCGet(7)
 VARIABLE l
 
-Devs == {"DevAbstractIgnoresObjectHints", "DevSpreadKeepsOuterType"}
-DevCode(d) == IF d = "DevAbstractIgnoresObjectHints" THEN "A" ELSE "S"
+Devs == {"DevAbstractIgnoresObjectHints"}
+DevCode(d) == "A"
 
 ObjHint(C, o) == C.ts.types[o].hint
 FieldHint(C, o, f) == C.ts.types[o].fields[f].hint
@@ -85,11 +85,11 @@ ObjectOnly(C) == \A ty \in StatTypes(C, C.op.sels, C.ts.query) : Kind(C, ty) = "
 (* implementation-shaped model: CacheControlCalculate (VisitMode::Inline).  cur = "" : no current type.          *)
 (*   enter_selection_set merges the hint of the current type if it is an object;                                 *)
 (*   enter_field merges the hint of the field found on the parent (= current) type;                              *)
-(*   typed inline fragments push their type condition; named spreads are visited in place                        *)
-(* Deviations (known_findings/C20.json):                                                                         *)
+(*   typed inline fragments push their type condition; named spreads are visited in place under the fragment's   *)
+(*   type condition (fixed in /repo 43a3432; before, the type of the spread site was kept)                       *)
+(* Deviation (known_findings/C20.json):                                                                          *)
 (*   DevAbstractIgnoresObjectHints  on an interface / union nothing is merged for the object types the data can  *)
 (*                                  have: neither their object-level hints nor their own field-level hints       *)
-(*   DevSpreadKeepsOuterType        visit_fragment_spread does not push the fragment's type condition            *)
 (* Ideal: at an abstract type the hints of every possible object type (and of the field on each) are merged.     *)
 RECURSIVE ImplSel(_, _, _, _, _), ImplItems(_, _, _, _, _, _)
 ImplSel(C, sels, cur, acc, dev) ==
@@ -118,8 +118,7 @@ ImplItems(C, sels, i, cur, acc, dev) ==
       [] OTHER ->
            IF ~HasFrag(C, s.name) THEN ImplItems(C, sels, i + 1, cur, acc, dev)
            ELSE LET fr == Frag(C, s.name)
-                    inner == IF "DevSpreadKeepsOuterType" \in dev THEN cur ELSE fr.on
-                IN ImplItems(C, sels, i + 1, cur, ImplSel(C, fr.sels, inner, acc, dev), dev)
+                IN ImplItems(C, sels, i + 1, cur, ImplSel(C, fr.sels, fr.on, acc, dev), dev)
 ImplPolicy(C, dev) == ImplSel(C, C.op.sels, C.ts.query, Unit, dev)
 \* the inputs on which a deviation can show: switching it changes the computed policy, alone or next to the others
 Trigger(d, C) == \E D \in SUBSET (Devs \ {d}) : ImplPolicy(C, D \cup {d}) # ImplPolicy(C, D)
